@@ -62,7 +62,7 @@ ASSUMPTIONS = ["Ed25519 signing/verification of ipv8.keyvault is trusted: a toke
 REACH = ["fork_children_before_parent", "chain_reversed", "forged_rejected", "foreign_rejected",
          "dangling_kept_unchained", "duplicate_ignored", "content_wrong_rejected", "content_right_attached",
          "content_via_token_attached", "roundtrip_ok", "upto_roundtrip_ok", "garbage_unserialize_raised",
-         "garbage_ignored", "waiting_area_overflow", "wire_feed", "token_withheld"]
+         "garbage_ignored", "waiting_area_overflow", "wire_feed", "token_withheld", "token_object_shared_between_trees"]
 SHRINK_FIELDS = ("order",)
 
 FORGE_BIT = 512          # first bit of the signature in the 128-byte wire form
@@ -191,8 +191,12 @@ def _mixed_case(seed: int, shape: list) -> dict:
     rng = random.Random(f"c16/mixed/{seed}")
     n = len(shape)
     order = _mix(rng, n, _base_order(rng, shape), rng.choice([1, 2, 3, 5, 8]))
-    return _case("mixed", seed, shape, order, rng.choice(["gather", "gather", "wire1", "wirebatch"]),
+    case = _case("mixed", seed, shape, order, rng.choice(["gather", "gather", "wire1", "wirebatch"]),
                  rng.choice([None, None, None, None, 2, 4]))
+    if case["feed"] == "gather" and rng.random() < 0.35:
+        # the application tracks a second identity and offers every Token OBJECT to both trees (alternating which one first)
+        case["shared"] = True
+    return case
 
 
 def _random_case(seed: int, nmax: int) -> dict:
@@ -435,6 +439,8 @@ def execute(case: dict) -> dict:  # noqa: C901, PLR0912, PLR0915
 
     # ---- receiver under test
     rx = TokenTree(public_key=pub)
+    shared = bool(case.get("shared")) and feed == "gather"
+    rx2 = TokenTree(public_key=fkey.pub()) if shared else None
     if case.get("umax") is not None:
         rx.unchained_max_size = int(case["umax"])
     bound = rx.unchained_max_size
@@ -616,11 +622,16 @@ def execute(case: dict) -> dict:  # noqa: C901, PLR0912, PLR0915
                 else:
                     t = clone(w)
                 was_el = h in rx.elements
+                if shared and no % 2 == 0:
+                    rx2.gather_token(t)           # the other identity's tree sees this very object first
                 try:
                     rv = rx.gather_token(t)
                 except Exception as e:  # noqa: BLE001
                     c.violate("feed", "gather_token_raised", f"gather_token({lbl}) raised {type(e).__name__}: {e}")
                     rv = None
+                if shared and no % 2:
+                    rx2.gather_token(t)
+                    c.probe("token_object_shared_between_trees")
                 outcome = None if rv is None else "tok"
                 if not ok and rv is None and h not in rx.elements:
                     c.probe("forged_rejected" if kind == "forged" else "foreign_rejected")
@@ -657,6 +668,15 @@ def execute(case: dict) -> dict:  # noqa: C901, PLR0912, PLR0915
         c.nontrivial(hashlib.sha1(repr((shape, order, feed, case.get("umax"))).encode()).hexdigest()[:20])  # noqa: S324
 
     # ---- final oracles
+    if shared:
+        # the second tree belongs to the foreign key: whatever it holds must be signed by that key
+        fpub = fkey.pub()
+        for h2, t2 in list(rx2.elements.items()) + [(t.get_hash(), t) for t in rx2.unchained]:
+            fresh = Token.unserialize(t2.get_plaintext_signed(), fpub)
+            if not fresh.verify(fpub):
+                c.violate("exact_content", "second_tree_holds_token_of_other_key",
+                          f"the tree of the second identity holds {h2.hex()[:12]} which is not signed by its key "
+                          f"(the same Token object was offered to the owner's tree)")
     e_final = set(rx.elements)
     u_final = {t.get_hash() for t in rx.unchained}
     clo = closure()
